@@ -14,7 +14,7 @@ MODEL = {
  'C05': ('FitInfo.keep over IEEE-extended floats (count-then-slice)', 'FitInfo.keep on enumerated ranked chi^2 vectors x selectors, and pairs of selectors'),
  'C06': ('integrate / integrate_subset / Filter.normalize / Filter.rebin / flux and variance sums', 'Filter.rebin and convolve_model_dir on generated filters and SED grids in either order'),
  'C07': ('order_to_match / sort_to_match with its post-check, both convolution paths', 'convolve_model_dir on per-file and cube packages built from the same SEDs, fits from each variant'),
- 'C08': ('exact-data recovery of fit2 / fit3 and ranking', 'whole pipeline: convolve, synthesise, fit(), write_parameters'),
+ 'C08': ('exact-data recovery of fit2 / fit3 and ranking, plus the end-to-end pipeline model runPipeline (SED write/read, rebin, convolve, sort_to_match, Models.read, fit, sort, keep, filter_table, listing) with row-integrity / order-invariance / planted-model composition theorems', 'whole pipeline: convolve, synthesise, fit(), write_parameters on planted data (both formats, both modes, staged histories), and every row of every listing of random per-file packages against the pipeline model'),
  'C09': ('filter_table (isin / rank / gather / post-check), ranges, counts', 'write_parameters, write_parameter_ranges, extract_parameters, filter_table on permuted parameter files'),
  'C10': ('fit() record loop, frame-level writer/reader, heap state machine of post-processing calls', 'fit() output files read back, three input forms, histories of post-processing calls with caller-object digests'),
  'C11': ('Perm-invariance of the regression sums, additive log shift, stateless fit step', 'paired Fitter.fit runs: permuted filters / models, scaled fluxes, interleaved histories'),
